@@ -392,8 +392,14 @@ fn matrix() -> Vec<Candidate> {
         let (mm, m) = mirror_of(0.0, 0.0, vec![(None, (None, None), vec![(Event::TunnelRecv, vec![Trans(t, 1.0)])])]);
         v.push(Candidate { desc: format!("target {t} in a one-state machine"), mirror: mm, machine: Some(m) });
     }
-    let (mm, m) = mirror_of(0.0, 0.0, vec![(None, (None, None), vec![(Event::TunnelRecv, vec![Trans(0, 0.5), Trans(0, 0.5)])])]);
-    v.push(Candidate { desc: "duplicate target".into(), mirror: mm, machine: Some(m) });
+    for dup in [0usize, STATE_END, STATE_SIGNAL] {
+        for ev in [Event::TunnelRecv, Event::LimitReached] {
+            let (mm, m) = mirror_of(0.0, 0.0, vec![(None, (None, None), vec![(ev, vec![Trans(dup, 0.5), Trans(dup, 0.5)])])]);
+            v.push(Candidate { desc: format!("duplicate target {dup} on {ev:?}"), mirror: mm, machine: Some(m) });
+            let (mm, m) = mirror_of(0.0, 0.0, vec![(None, (None, None), vec![(ev, vec![Trans(dup, 0.25), Trans(0, 0.25), Trans(dup, 0.25)])])]);
+            v.push(Candidate { desc: format!("duplicate target {dup} around another on {ev:?}"), mirror: mm, machine: Some(m) });
+        }
+    }
     let (mm, m) = mirror_of(0.0, 0.0, vec![(None, (None, None), vec![(Event::TunnelRecv, vec![Trans(0, 0.5), Trans(STATE_END, 0.5), Trans(STATE_SIGNAL, f32::EPSILON)])])]);
     v.push(Candidate { desc: "sum one ulp above 1".into(), mirror: mm, machine: Some(m) });
     let (mm, m) = mirror_of(0.0, 0.0, vec![]);
